@@ -84,7 +84,8 @@ def job_parse(job):
     L = core.labeling("int").prime(9)
     grid = _grid(case)
     empty = core.observe(core.new_graph(directed, True), L, KNOWN, grid)
-    marker = rng.choice(MARKERS)
+    # event logs: the marker made of the '-' character is tried on a larger share of the cases
+    marker = rng.choice(MARKERS + ["--", "--"]) if parser == "interactions" else rng.choice(MARKERS)
     alt = rng.random() < 0.3     # alternative spellings of the integer fields (03, +3)
     conv = rng.choice(["int", "int", "decimal", "keyerr"])
     res, G = _obs(lambda: _parse(parser, [render(l, delim, rng, marker, alt) for l in case], delim, directed, marker, conv))
